@@ -54,6 +54,8 @@ class QueueWorld:
                     out = await f
                     if out == "exc":
                         raise BodyError()
+                    if out == "group":
+                        raise ExceptionGroup("several failures in the block", [BodyError(), BodyError()])
                 finally:
                     self.gates.pop((c, r), None)
                     self.in_block.discard(c)
@@ -78,7 +80,7 @@ class QueueWorld:
                 e = t.exception()
                 if isinstance(e, ValueError):
                     self.v("item marked processed more than once (task_done() raised ValueError)", c)
-                elif e is not None and not isinstance(e, BodyError):
+                elif e is not None and not isinstance(e, (BodyError, ExceptionGroup)):
                     self.v("consumer failed with an unexpected exception", c, type(e).__name__)
 
     # ------------------------------------------------------------------ explorer interface
